@@ -755,10 +755,13 @@ func (fr *Frame) execNext(st *State, x *ssa.Next) *Val {
 	}
 	kt := mapKeyTerm(kv)
 	// ok: key present and not yet visited. !ok: every present key is visited.
-	c.addFact(st, Implies(ok, And(Select(hasArr, kt), Not(Select(vs, kt)))))
+	c.addFact(st, Implies(ok, And(Neq(m.X, Num(0)), Select(hasArr, kt), Not(Select(vs, kt))))) // a nil map yields nothing
 	j := BVar("k", SInt)
 	c.addFact(st, Implies(Not(ok), Forall([]*Term{j}, [][]*Term{{Select(hasArr, j)}}, Implies(Select(hasArr, j), Select(vs, j)))))
 	st.hset(vis, Ite(ok, Store(vs, kt, True), vs))
+	if curLog != nil {
+		*curLog = append(*curLog, writeRec{vis, nil}) // the visited set changes on every iteration
+	}
 	val := c.mapGet(st, m.X, mt, kv)
 	c.heapValFacts(st, val)
 	return &Val{K: VTuple, T: x.Type(), Fs: []*Val{scalar(types.Typ[types.Bool], ok), kv, val}}
